@@ -1508,3 +1508,1078 @@ Proof.
       * apply (H1 m Hm He).
       * apply (H2 q Hq He).
 Qed.
+(* ========================================================================================== *)
+(* 10. Tag queries and remap_tags                                                              *)
+
+Lemma tag_eqb_eq a b : tag_eqb a b = true <-> a = b.
+Proof.
+  destruct a as [a1 a2], b as [b1 b2]. unfold tag_eqb. simpl.
+  rewrite andb_true_iff, !N.eqb_eq. split; [intros [-> ->]; reflexivity | intros E; inversion E; auto].
+Qed.
+
+Lemma In_ins_tag x t l : In x (ins_tag t l) <-> x = t \/ In x l.
+Proof.
+  induction l as [|y tl IH]; simpl.
+  - split; intros [H|H]; auto.
+  - destruct (tag_ltb t y); simpl.
+    + split; intros [H|H]; auto.
+    + destruct (tag_eqb t y) eqn:E; simpl.
+      * apply tag_eqb_eq in E. subst. split; intros H; auto. destruct H as [->|H]; auto.
+      * rewrite IH. split; intros H; tauto.
+Qed.
+
+Lemma In_fold_ins_tag x l : forall s,
+  In x (fold_left (fun s t => ins_tag t s) l s) <-> In x l \/ In x s.
+Proof.
+  induction l as [|a tl IH]; intros s; simpl; [tauto|].
+  rewrite IH, In_ins_tag. split; intros H.
+  - destruct H as [H|[->|H]]; auto.
+  - destruct H as [[->|H]|H]; auto.
+Qed.
+
+Lemma In_fold_cells_tags (pi : cell -> list tag) L x arr : forall s,
+  In x (fold_left (fun s i => fold_left (fun s t => ins_tag t s) (pi (cell_at L i)) s) arr s) <->
+  (exists i, In i arr /\ In x (pi (cell_at L i))) \/ In x s.
+Proof.
+  induction arr as [|a tl IH]; intros s; simpl.
+  - split; [auto | intros [(i & [] & _)|H]; auto].
+  - rewrite IH, In_fold_ins_tag. split.
+    + intros [(i & Hi & Hx)|[H|H]]; [left; exists i; auto | left; exists a; auto | right; exact H].
+    + intros [(i & [->|Hi] & Hx)|H]; [right; left; exact Hx | left; exists i; auto | right; right; exact H].
+Qed.
+
+(* the tag queries return exactly the tags in use in the member cells *)
+Theorem tags_spec_lemma L :
+  (forall t, In t (get_shape_tags L) <-> exists i, In i (l_carr L) /\ In t (c_ptags (cell_at L i))) /\
+  (forall t, In t (get_label_tags L) <-> exists i, In i (l_carr L) /\ In t (c_ltags (cell_at L i))).
+Proof.
+  split; intros t.
+  - unfold get_shape_tags, cell_shape_tags. rewrite (In_fold_cells_tags c_ptags). simpl. tauto.
+  - unfold get_label_tags, cell_label_tags. rewrite (In_fold_cells_tags c_ltags). simpl. tauto.
+Qed.
+
+(* TagMap::get as a function of the list of TagMap::set calls *)
+Lemma tm_get_nil k : tm_get [] k = k.
+Proof. reflexivity. Qed.
+
+Lemma tm_get_snoc m k' v k : tm_get (m ++ [(k', v)]) k = if tag_eqb k' k then v else tm_get m k.
+Proof. unfold tm_get. rewrite fold_left_app. reflexivity. Qed.
+
+Lemma remap_cell_at L m j : NoDup (l_carr L) ->
+  cell_at (remap_tags L m) j = if memb j (l_carr L) then remap_cell m (cell_at L j) else cell_at L j.
+Proof. intros Hnd. unfold cell_at. simpl. apply cell_at_upd_members; auto. Qed.
+
+(* remap_tags applies the map to every tag of every member cell and touches nothing else *)
+Theorem remap_spec_lemma L m : WF L ->
+  let L' := remap_tags L m in
+  l_carr L' = l_carr L /\ l_rarr L' = l_rarr L /\ l_raws L' = l_raws L /\
+  (forall j, cname L' j = cname L j /\ c_refs (cell_at L' j) = c_refs (cell_at L j)) /\
+  (forall j, In j (l_carr L) ->
+     c_ptags (cell_at L' j) = map (tm_get m) (c_ptags (cell_at L j)) /\
+     c_ltags (cell_at L' j) = map (tm_get m) (c_ltags (cell_at L j))) /\
+  (forall j, ~ In j (l_carr L) -> cell_at L' j = cell_at L j) /\
+  (forall t, In t (get_shape_tags L') <-> exists t0, In t0 (get_shape_tags L) /\ t = tm_get m t0) /\
+  (forall t, In t (get_label_tags L') <-> exists t0, In t0 (get_label_tags L) /\ t = tm_get m t0).
+Proof.
+  intros (_ & (Hn1 & _ & _) & _) L'.
+  assert (Hnd : NoDup (l_carr L)) by (eapply NoDup_map_NoDup; eauto).
+  assert (Hmem : forall j, In j (l_carr L) ->
+     c_ptags (cell_at L' j) = map (tm_get m) (c_ptags (cell_at L j)) /\
+     c_ltags (cell_at L' j) = map (tm_get m) (c_ltags (cell_at L j))).
+  { intros j Hj. unfold L'. rewrite remap_cell_at by exact Hnd.
+    apply memb_In in Hj. rewrite Hj. split; reflexivity. }
+  split; [reflexivity|]. split; [reflexivity|]. split; [reflexivity|].
+  split; [intros j; split; [apply remap_cname | apply remap_refs]|].
+  split; [exact Hmem|]. split.
+  { intros j Hj. unfold L'. rewrite remap_cell_at by exact Hnd. apply memb_false in Hj. rewrite Hj. reflexivity. }
+  destruct (tags_spec_lemma L) as [HS HL]. destruct (tags_spec_lemma L') as [HS' HL'].
+  split; intros t.
+  - rewrite HS'. split.
+    + intros (i & Hi & Ht). simpl in Hi. destruct (Hmem i Hi) as [E _]. rewrite E in Ht.
+      apply in_map_iff in Ht. destruct Ht as (t0 & <- & Ht0). exists t0. split; auto. apply HS. eauto.
+    + intros (t0 & Ht0 & ->). apply HS in Ht0. destruct Ht0 as (i & Hi & Ht0). exists i. split; auto.
+      destruct (Hmem i Hi) as [E _]. rewrite E. apply in_map. exact Ht0.
+  - rewrite HL'. split.
+    + intros (i & Hi & Ht). simpl in Hi. destruct (Hmem i Hi) as [_ E]. rewrite E in Ht.
+      apply in_map_iff in Ht. destruct Ht as (t0 & <- & Ht0). exists t0. split; auto. apply HL. eauto.
+    + intros (t0 & Ht0 & ->). apply HL in Ht0. destruct Ht0 as (i & Hi & Ht0). exists i. split; auto.
+      destruct (Hmem i Hi) as [_ E]. rewrite E. apply in_map. exact Ht0.
+Qed.
+(* ========================================================================================== *)
+(* 11. Closedness (no pointer of a member leaves the library) is preserved                     *)
+
+Definition raw_closed (L : lib) (r : nat) : Prop :=
+  forall d, In d (r_deps (raw_at L r)) -> In d (l_rarr L).
+
+(* additional preconditions under which `closed` is an invariant *)
+Definition op_pre_closed (L : lib) (o : op) : Prop :=
+  match o with
+  | OpAddCell i => refs_closed L i
+  | OpAddRaw r => raw_closed L r
+  | OpRemoveCell i =>
+      forall m, In m (l_carr L) -> m <> i -> ~ In (ToCell i) (c_refs (cell_at L m))
+  | OpRemoveRaw r =>
+      (forall m, In m (l_carr L) -> ~ In (ToRaw r) (c_refs (cell_at L m))) /\
+      (forall q, In q (l_rarr L) -> q <> r -> ~ In r (r_deps (raw_at L q)))
+  | OpReplaceCC _ new => refs_closed L new
+  | OpReplaceRC old new =>
+      refs_closed L new /\ (forall q, In q (l_rarr L) -> ~ In old (r_deps (raw_at L q)))
+  | OpReplaceCR _ new => raw_closed L new
+  | OpReplaceRR old new =>
+      raw_closed L new /\ ~ In old (r_deps (raw_at L new)) /\
+      (forall q, In q (l_rarr L) -> q <> old -> ~ In old (r_deps (raw_at L q)))
+  | OpCopyLib deep => deep = false
+  | _ => True
+  end.
+
+Definition tgt_member (ca ra : list nat) (t : target) : Prop :=
+  match t with ToCell c => In c ca | ToRaw r => In r ra | ByName _ => True end.
+
+Lemma closed_retarget L ca ra mc mr nt o n :
+  NoDup ca ->
+  (forall m t, In m ca -> In t (c_refs (cell_at L m)) -> matches mc mr t \/ tgt_member ca ra t) ->
+  tgt_member ca ra nt ->
+  (forall q d, In q ra -> In d (r_deps (raw_at L q)) -> In d ra) ->
+  closed (retarget_lib L ca ra (retarget mc mr nt o n)).
+Proof.
+  intros Hnd Hc Hnt Hr. split; [|exact Hr].
+  intros m t' Hm Ht'. simpl in Hm. rewrite retarget_lib_refs in Ht' by exact Hnd.
+  pose proof Hm as Hmb. apply memb_In in Hmb. rewrite Hmb in Ht'.
+  apply in_map_iff in Ht'. destruct Ht' as (t & <- & Ht). simpl l_carr. simpl l_rarr.
+  destruct (retarget_cases mc mr nt o n t) as [[_ ->]|[Hnm E]]; [exact Hnt|].
+  destruct (Hc m t Hm Ht) as [H|H]; [contradiction|].
+  destruct t; try (rewrite E; exact H). destruct E as [->|(_ & _ & ->)]; exact I.
+Qed.
+
+Lemma raw_at_app_old L r x : r < length (l_raws L) ->
+  nth r (l_raws L ++ [x]) dummy_raw = raw_at L r.
+Proof. intros H. unfold raw_at. apply app_nth1. exact H. Qed.
+
+Theorem step_closed_lemma L o :
+  WF L -> closed L -> op_pre L o -> op_pre_closed L o -> closed (step L o).
+Proof.
+  intros HWF Hcl Hpre Hpc. pose proof HWF as ((H1 & H2 & H3 & H4) & (Hn1 & Hn2 & Hn3) & Ha).
+  assert (Hndc : NoDup (l_carr L)) by (eapply NoDup_map_NoDup; eauto).
+  assert (Hndr : NoDup (l_rarr L)) by (eapply NoDup_map_NoDup; eauto).
+  pose proof (step_WF_lemma L o HWF Hpre) as HWF'.
+  pose proof Hcl as [Hcl1 Hcl2].
+  destruct o; simpl in *.
+  - (* OpNewCell *) split; [|exact Hcl2]. intros i t Hi Ht. simpl in *.
+    unfold cell_at in Ht. simpl in Ht. rewrite app_nth1 in Ht by auto. apply (Hcl1 i t Hi Ht).
+  - (* OpNewRaw *) split; [exact Hcl1|]. intros q d Hq Hd. simpl in *.
+    unfold raw_at in Hd. simpl in Hd. rewrite app_nth1 in Hd by auto. apply (Hcl2 q d Hq Hd).
+  - (* OpCopyCell *) split; [|exact Hcl2]. intros i t Hi Ht. simpl in *.
+    unfold cell_at in Ht. simpl in Ht. rewrite app_nth1 in Ht by auto. apply (Hcl1 i t Hi Ht).
+  - (* OpAddCell *) split; [|exact Hcl2]. intros m t Hm Ht. simpl in *.
+    change (In t (c_refs (cell_at L m))) in Ht.
+    assert (tgt_member (l_carr L) (l_rarr L) t) as Htm.
+    { apply in_app_iff in Hm. destruct Hm as [Hm|[<-|[]]]; [apply (Hcl1 m t Hm Ht) | apply (Hpc t Ht)]. }
+    destruct t; simpl in *; auto. apply in_app_iff. auto.
+  - (* OpAddRaw *) split.
+    { intros m t Hm Ht. simpl in *. change (In t (c_refs (cell_at L m))) in Ht.
+      pose proof (Hcl1 m t Hm Ht) as Htm. destruct t; auto. apply in_app_iff. auto. }
+    intros q d Hq Hd. simpl in *.
+    change (In d (r_deps (raw_at L q))) in Hd. apply in_app_iff. left.
+    apply in_app_iff in Hq. destruct Hq as [Hq|[<-|[]]]; [apply (Hcl2 q d Hq Hd) | apply (Hpc d Hd)].
+  - (* OpRemoveCell *) split; [|exact Hcl2]. intros m t Hm Ht. simpl in *.
+    change (In t (c_refs (cell_at L m))) in Ht.
+    apply In_remove_item_iff in Hm; auto. destruct Hm as [Hm Hmi].
+    pose proof (Hcl1 m t Hm Ht) as Htm. destruct t; auto.
+    apply In_remove_item_iff; auto. split; auto. intros ->. apply (Hpc m Hm Hmi Ht).
+  - (* OpRemoveRaw *) destruct Hpc as [Hp1 Hp2]. split.
+    + intros m t Hm Ht. simpl in *. change (In t (c_refs (cell_at L m))) in Ht.
+      pose proof (Hcl1 m t Hm Ht) as Htm. destruct t; auto.
+      apply In_remove_item_iff; auto. split; auto. intros ->. apply (Hp1 m Hm Ht).
+    + intros q d Hq Hd. simpl in *. change (In d (r_deps (raw_at L q))) in Hd.
+      apply In_remove_item_iff in Hq; auto. destruct Hq as [Hq Hqr].
+      apply In_remove_item_iff; auto. split; [apply (Hcl2 q d Hq Hd)|]. intros ->. apply (Hp2 q Hq Hqr Hd).
+  - (* OpRenamePtr *) destruct Hpre as (Hi & _). split; [|exact Hcl2].
+    intros m t' Hm Ht'. simpl l_carr in *. simpl l_rarr.
+    rewrite rename_refs in Ht' by exact Hndc. pose proof Hm as Hmb. apply memb_In in Hmb. rewrite Hmb in Ht'.
+    apply in_map_iff in Ht'. destruct Ht' as (t & <- & Ht). pose proof (Hcl1 m t Hm Ht) as Htm.
+    destruct t; simpl; auto. destruct (N.eqb s (cname L i)); exact I.
+  - (* OpRenameName *) unfold rename_cell_name in *. destruct (get_cell L old) as [c|] eqn:G; [|exact Hcl].
+    split; [|exact Hcl2].
+    intros m t' Hm Ht'. simpl l_carr in *. simpl l_rarr.
+    rewrite rename_refs in Ht' by exact Hndc. pose proof Hm as Hmb. apply memb_In in Hmb. rewrite Hmb in Ht'.
+    apply in_map_iff in Ht'. destruct Ht' as (t & <- & Ht). pose proof (Hcl1 m t Hm Ht) as Htm.
+    destruct t; simpl; auto. destruct (N.eqb s (cname L c)); exact I.
+  - (* OpReplaceCC *) destruct Hpre as (Hold & Hnew & Hnin & Hname & Hcyc). unfold replace_cc.
+    apply closed_retarget.
+    + destruct HWF' as (_ & (Hn1' & _) & _). simpl in Hn1'. eapply NoDup_map_NoDup; eauto.
+    + intros m t Hm Ht. apply In_replace_first in Hm.
+      assert (tgt_member (l_carr L) (l_rarr L) t) as Htm
+        by (destruct Hm as [->|Hm]; [apply (Hpc t Ht) | apply (Hcl1 m t Hm Ht)]).
+      destruct t as [c|r|s]; simpl in *; auto.
+      destruct (Nat.eqb_spec c old) as [->|Hc]; auto. right.
+      apply In_replace_first_iff; auto.
+    + simpl. apply In_replace_first_iff; auto.
+    + exact Hcl2.
+  - (* OpReplaceRC *) destruct Hpre as (Hold & Hnew & Hnin & Hname & Hcyc). destruct Hpc as [Hp1 Hp2].
+    unfold replace_rc in *. assert (memb old (l_rarr L) = true) as Emb by (apply memb_In; exact Hold).
+    rewrite Emb in *. apply closed_retarget.
+    + destruct HWF' as (_ & (Hn1' & _) & _). simpl in Hn1'. eapply NoDup_map_NoDup; eauto.
+    + intros m t Hm Ht. apply in_app_iff in Hm.
+      assert (tgt_member (l_carr L) (l_rarr L) t) as Htm
+        by (destruct Hm as [Hm|[<-|[]]]; [apply (Hcl1 m t Hm Ht) | apply (Hp1 t Ht)]).
+      destruct t as [c|r|s]; simpl in *; auto.
+      * right. apply in_app_iff. auto.
+      * destruct (Nat.eqb_spec r old) as [->|Hc]; auto. right. apply In_remove_unordered; auto.
+    + simpl. apply in_app_iff. right. left. reflexivity.
+    + intros q d Hq Hd. apply In_remove_unordered in Hq; auto. destruct Hq as [Hq Hqo].
+      apply In_remove_unordered; auto. split; [apply (Hcl2 q d Hq Hd)|]. intros ->. apply (Hp2 q Hq Hd).
+  - (* OpReplaceCR *) destruct Hpre as (Hold & Hnew & Hnin & Hname).
+    unfold replace_cr in *. assert (memb old (l_carr L) = true) as Emb by (apply memb_In; exact Hold).
+    rewrite Emb in *. apply closed_retarget.
+    + destruct HWF' as (_ & (Hn1' & _) & _). simpl in Hn1'. eapply NoDup_map_NoDup; eauto.
+    + intros m t Hm Ht. apply In_remove_unordered in Hm; auto. destruct Hm as [Hm Hmo].
+      pose proof (Hcl1 m t Hm Ht) as Htm. destruct t as [c|r|s]; simpl in *; auto.
+      * destruct (Nat.eqb_spec c old) as [->|Hc]; auto. right. apply In_remove_unordered; auto.
+      * right. apply in_app_iff. auto.
+    + simpl. apply in_app_iff. right. left. reflexivity.
+    + intros q d Hq Hd. apply in_app_iff. left. apply in_app_iff in Hq.
+      destruct Hq as [Hq|[<-|[]]]; [apply (Hcl2 q d Hq Hd) | apply (Hpc d Hd)].
+  - (* OpReplaceRR *) destruct Hpre as (Hold & Hnew & Hnin & Hname). destruct Hpc as (Hp1 & Hp2 & Hp3).
+    unfold replace_rr in *. apply closed_retarget; auto.
+    + intros m t Hm Ht. pose proof (Hcl1 m t Hm Ht) as Htm. destruct t as [c|r|s]; simpl in *; auto.
+      destruct (Nat.eqb_spec r old) as [->|Hc]; auto. right. apply In_replace_first_iff; auto.
+    + simpl. apply In_replace_first_iff; auto.
+    + intros q d Hq Hd. apply In_replace_first_iff in Hq; auto. apply In_replace_first_iff; auto. right.
+      destruct Hq as [->|[Hq Hqo]].
+      * split; [apply (Hp1 d Hd)|]. intros ->. apply (Hp2 Hd).
+      * split; [apply (Hcl2 q d Hq Hd)|]. intros ->. apply (Hp3 q Hq Hqo Hd).
+  - (* OpRemap *) split; [|exact Hcl2]. intros i t Hi Ht. rewrite remap_refs in Ht. apply (Hcl1 i t Hi Ht).
+  - (* OpCopyLib *) subst deep. exact Hcl.
+Qed.
+
+(* histories within both sets of preconditions *)
+Fixpoint ops_ok_closed (L : lib) (ops : list op) : Prop :=
+  match ops with
+  | [] => True
+  | o :: tl => op_pre L o /\ op_pre_closed L o /\ ops_ok_closed (step L o) tl
+  end.
+
+Theorem run_WF_closed_lemma ops : forall L,
+  WF L -> closed L -> ops_ok_closed L ops -> WF (run ops L) /\ closed (run ops L).
+Proof.
+  induction ops as [|o tl IH]; intros L HWF Hcl Hok; simpl in *.
+  - auto.
+  - destruct Hok as (Hpre & Hpc & Hok). apply IH; auto.
+    + apply step_WF_lemma; auto.
+    + apply step_closed_lemma; auto.
+Qed.
+
+Lemma closed_empty : closed empty_lib.
+Proof. split; simpl; intros; contradiction. Qed.
+(* ========================================================================================== *)
+(* 12. Dependency queries.  Cell::get_dependencies and RawCell::get_dependencies are the same
+   traversal over two graphs; it is specified once, over an abstract graph given by a name
+   function and a children function.                                                            *)
+
+Lemma mget_In k v m : mget k m = Some v -> In (k, v) m.
+Proof.
+  induction m as [|[k0 v0] tl IH]; simpl; [discriminate|].
+  destruct (N.eqb_spec k0 k) as [->|Hne]; intros H.
+  - inversion H; subst. auto.
+  - right. apply IH. exact H.
+Qed.
+
+Lemma In_mget k v m : NoDup (map fst m) -> In (k, v) m -> mget k m = Some v.
+Proof.
+  induction m as [|[k0 v0] tl IH]; simpl; [tauto|]. intros Hnd [H|H].
+  - inversion H; subst. rewrite N.eqb_refl. reflexivity.
+  - inversion Hnd as [|? ? Hna Hnd']; subst.
+    destruct (N.eqb_spec k0 k) as [->|Hne]; [|apply IH; auto].
+    exfalso. apply Hna. apply (in_map fst) in H. exact H.
+Qed.
+
+Lemma In_mset k v m k' v' : In (k', v') (mset k v m) -> (k', v') = (k, v) \/ In (k', v') m.
+Proof.
+  induction m as [|[k0 v0] tl IH]; simpl.
+  - intros [H|[]]; auto.
+  - destruct (N.eqb k0 k); simpl; intros [H|H]; auto. destruct (IH H); auto.
+Qed.
+
+Lemma In_keys_mset k v m k' : In k' (map fst (mset k v m)) -> k' = k \/ In k' (map fst m).
+Proof.
+  intros H. apply in_map_iff in H. destruct H as ([k1 v1] & <- & H). apply In_mset in H.
+  destruct H as [H|H]; [inversion H; auto|]. right. apply (in_map fst) in H. exact H.
+Qed.
+
+Lemma NoDup_keys_mset k v m : NoDup (map fst m) -> NoDup (map fst (mset k v m)).
+Proof.
+  induction m as [|[k0 v0] tl IH]; simpl; intros Hnd.
+  - constructor; [intros []|constructor].
+  - inversion Hnd as [|? ? Hna Hnd']; subst. destruct (N.eqb_spec k0 k) as [->|Hne]; simpl.
+    + constructor; auto.
+    + constructor; [|apply IH; exact Hnd'].
+      intros H. apply In_keys_mset in H. destruct H as [H|H]; [congruence | contradiction].
+Qed.
+
+Lemma ins_nat_In x y l : In x (ins_nat y l) <-> x = y \/ In x l.
+Proof.
+  induction l as [|z tl IH]; simpl.
+  - split; intros [H|H]; auto.
+  - destruct (Nat.ltb y z); simpl; [split; intros [H|H]; auto|].
+    destruct (Nat.eqb_spec y z) as [->|Hne]; simpl.
+    + split; intros H; auto. destruct H as [->|H]; auto.
+    + rewrite IH. split; intros H; tauto.
+Qed.
+
+Lemma sort_nat_In x l : In x (sort_nat l) <-> In x l.
+Proof.
+  unfold sort_nat. induction l as [|a tl IH]; simpl; [tauto|].
+  rewrite ins_nat_In, IH. split; intros [H|H]; auto.
+Qed.
+
+Section GenericDeps.
+  Variable nm : nat -> name.
+  Variable ch : nat -> list nat.
+  Variable mem : nat -> Prop.
+  Hypothesis nm_inj : forall a b, mem a -> mem b -> nm a = nm b -> a = b.
+  Hypothesis ch_mem : forall a b, mem a -> In b (ch a) -> mem b.
+
+  Fixpoint gloop (rec : nat -> dmap -> outcome dmap) (recursive : bool) (l : list nat) (m : dmap)
+    : outcome dmap :=
+    match l with
+    | [] => Ok m
+    | j :: tl =>
+        obind (if recursive && not_mapped m (nm j) j then rec j m else Ok m)
+              (fun m1 => gloop rec recursive tl (mset (nm j) j m1))
+    end.
+
+  Fixpoint gdeps (fuel : nat) (recursive : bool) (i : nat) (m : dmap) : outcome dmap :=
+    match fuel with
+    | O => Crash
+    | S f => gloop (gdeps f true) recursive (ch i) m
+    end.
+
+  Inductive greach : nat -> nat -> Prop :=
+  | gr_step i j : In j (ch i) -> greach i j
+  | gr_snoc i j k : greach i j -> In k (ch j) -> greach i k.
+
+  Lemma greach_trans i j k : greach i j -> greach j k -> greach i k.
+  Proof.
+    intros H1 H2. revert H1. induction H2 as [j k H|j k l H IH Hkl]; intros H1.
+    - exact (gr_snoc i j k H1 H).
+    - exact (gr_snoc i k l (IH H1) Hkl).
+  Qed.
+
+  Lemma greach_first i k : greach i k -> exists j, In j (ch i) /\ (k = j \/ greach j k).
+  Proof.
+    induction 1 as [i j H | i j k H (j0 & Hj0 & IH) Hjk].
+    - exists j. auto.
+    - exists j0. split; auto. right. destruct IH as [->|IH].
+      + apply gr_step. exact Hjk.
+      + eapply gr_snoc; eauto.
+  Qed.
+
+  Lemma greach_mem i j : mem i -> greach i j -> mem j.
+  Proof. intros Hi H. induction H; eauto. Qed.
+
+  (* depth bound: every path from i has fewer than h edges *)
+  Fixpoint hb (h : nat) (i : nat) : Prop :=
+    match h with
+    | O => False
+    | S h' => forall j, In j (ch i) -> hb h' j
+    end.
+
+  Lemma hb_of_acyclic n :
+    (forall i, ~ greach i i) -> (forall a b, In b (ch a) -> a < n) -> forall i, hb (S n) i.
+  Proof.
+    intros Hac Hlt.
+    assert (Hsrc : forall a b, greach a b -> a < n).
+    { intros a b H. induction H; eauto. }
+    assert (G : forall h anc i, NoDup anc -> (forall a, In a anc -> greach a i) -> length anc + h > n -> hb h i).
+    { induction h as [|h IH]; intros anc i Hnd HS Hlen.
+      - exfalso. assert (length anc <= length (seq 0 n)) as Hle.
+        { apply NoDup_incl_length; auto. intros a Ha. apply in_seq. specialize (Hsrc a i (HS a Ha)). lia. }
+        rewrite seq_length in Hle. lia.
+      - simpl. intros j Hj. apply (IH (i :: anc)).
+        + constructor; auto. intros Hin. apply (Hac i). apply HS. exact Hin.
+        + intros a [<-|Ha]; [apply gr_step; exact Hj | eapply gr_snoc; eauto].
+        + simpl. lia. }
+    intros i. apply (G (S n) [] i); [constructor | intros a [] | simpl; lia].
+  Qed.
+
+  Definition has (m : dmap) (x : nat) : Prop := mget (nm x) m = Some x.
+  Definition good (m : dmap) : Prop :=
+    NoDup (map fst m) /\ forall k v, In (k, v) m -> k = nm v /\ mem v.
+  Definition dclosed (m : dmap) : Prop := forall v w, has m v -> greach v w -> has m w.
+
+  Lemma has_mem m x : good m -> has m x -> mem x.
+  Proof. intros [_ Hg] H. apply mget_In in H. apply (Hg _ _ H). Qed.
+
+  Lemma has_mset m j x : mem x -> mem j -> (has (mset (nm j) j m) x <-> x = j \/ has m x).
+  Proof.
+    intros Hx Hj. unfold has. rewrite mget_mset. destruct (N.eqb_spec (nm j) (nm x)) as [E|E].
+    - assert (j = x) by (apply nm_inj; auto). subst. split; auto.
+    - split; [auto|]. intros [->|H]; [congruence | exact H].
+  Qed.
+
+  Lemma good_mset m j : good m -> mem j -> good (mset (nm j) j m).
+  Proof.
+    intros [H1 H2] Hj. split; [apply NoDup_keys_mset; exact H1|].
+    intros k v H. apply In_mset in H. destruct H as [H|H]; [inversion H; subst; auto | apply H2; exact H].
+  Qed.
+
+  Lemma vals_has m x : good m -> (In x (map snd m) <-> has m x).
+  Proof.
+    intros [H1 H2]. unfold has. split.
+    - intros H. apply in_map_iff in H. destruct H as ([k v] & <- & H). simpl.
+      destruct (H2 _ _ H) as [-> _]. apply In_mget; auto.
+    - intros H. apply mget_In in H. apply (in_map snd) in H. exact H.
+  Qed.
+
+  Lemma good_nil : good [].
+  Proof. split; [constructor | intros k v []]. Qed.
+
+  Lemma dclosed_nil : dclosed [].
+  Proof. intros v w H. discriminate. Qed.
+
+  Lemma not_mapped_has m j : not_mapped m (nm j) j = true <-> ~ has m j.
+  Proof. apply not_mapped_true. Qed.
+
+  (* the loop, non recursive *)
+  Lemma gloop_direct_spec rec l : (forall j, In j l -> mem j) -> forall m, good m ->
+    exists m', gloop rec false l m = Ok m' /\ good m' /\
+      forall x, mem x -> (has m' x <-> has m x \/ In x l).
+  Proof.
+    induction l as [|j tl IH]; intros Hl m Hg; simpl.
+    - exists m. split; auto. split; auto. intros x _. tauto.
+    - assert (mem j) as Hj by (apply Hl; left; reflexivity).
+      destruct (IH (fun a Ha => Hl a (or_intror Ha)) (mset (nm j) j m) (good_mset m j Hg Hj))
+        as (m' & E & Hg' & Hm').
+      exists m'. split; auto. split; auto. intros x Hx. rewrite (Hm' x Hx), (has_mset m j x Hx Hj).
+      split; intros H; [destruct H as [[->|H]|H]; auto | destruct H as [H|[->|H]]; auto].
+  Qed.
+
+  (* the loop, recursive, given the contract of the recursive call on every listed child *)
+  Lemma gloop_rec_spec rec l :
+    (forall j, In j l -> mem j) ->
+    (forall j m, In j l -> good m -> dclosed m ->
+       exists m', rec j m = Ok m' /\ good m' /\ dclosed m' /\
+         forall x, mem x -> (has m' x <-> has m x \/ greach j x)) ->
+    forall m, good m -> dclosed m ->
+    exists m', gloop rec true l m = Ok m' /\ good m' /\ dclosed m' /\
+      forall x, mem x -> (has m' x <-> has m x \/ exists j, In j l /\ (x = j \/ greach j x)).
+  Proof.
+    induction l as [|j tl IH]; intros Hl Hrec m Hg Hd; simpl.
+    - exists m. split; auto. split; auto. split; auto. intros x _. split; auto.
+      intros [H|(j & [] & _)]; auto.
+    - assert (mem j) as Hj by (apply Hl; left; reflexivity).
+      (* the state after the optional recursive call *)
+      assert (exists m1, (if not_mapped m (nm j) j then rec j m else Ok m) = Ok m1 /\ good m1 /\ dclosed m1 /\
+                (forall x, mem x -> (has m1 x <-> has m x \/ greach j x)) /\
+                (forall w, greach j w -> has m1 w)) as (m1 & E1 & Hg1 & Hd1 & Hm1 & Hdesc).
+      { destruct (not_mapped m (nm j) j) eqn:Enm.
+        - destruct (Hrec j m (or_introl eq_refl) Hg Hd) as (m1 & E & Hg1 & Hd1 & Hm1).
+          exists m1. split; auto. split; auto. split; auto. split; auto.
+          intros w Hw. apply Hm1; [eapply greach_mem; eauto | right; exact Hw].
+        - assert (has m j) as Hhj.
+          { destruct (not_mapped_has m j) as [_ H]. unfold has. unfold not_mapped in Enm.
+            destruct (mget (nm j) m) as [v|]; [|discriminate].
+            apply negb_false_iff in Enm. apply Nat.eqb_eq in Enm. subst. reflexivity. }
+          exists m. split; auto. split; auto. split; auto. split.
+          + intros x Hx. split; auto. intros [H|H]; auto. apply (Hd j x Hhj H).
+          + intros w Hw. apply (Hd j w Hhj Hw). }
+      rewrite E1. simpl.
+      set (m2 := mset (nm j) j m1).
+      assert (Hg2 : good m2) by (apply good_mset; auto).
+      assert (Hd2 : dclosed m2).
+      { intros v w Hv Hvw. pose proof (has_mem m2 v Hg2 Hv) as Hmv.
+        pose proof (greach_mem v w Hmv Hvw) as Hmw.
+        apply (has_mset m1 j w Hmw Hj). right.
+        apply (has_mset m1 j v Hmv Hj) in Hv. destruct Hv as [->|Hv].
+        - apply Hdesc. exact Hvw.
+        - apply (Hd1 v w Hv Hvw). }
+      destruct (IH (fun a Ha => Hl a (or_intror Ha))
+                   (fun a m0 Ha => Hrec a m0 (or_intror Ha)) m2 Hg2 Hd2) as (m' & E & Hg' & Hd' & Hm').
+      exists m'. split; auto. split; auto. split; auto.
+      intros x Hx. rewrite (Hm' x Hx). unfold m2. rewrite (has_mset m1 j x Hx Hj), (Hm1 x Hx).
+      split.
+      + intros [[->|[H|H]]|(a & Ha & H)]; auto.
+        * right. exists j. auto.
+        * right. exists j. auto.
+        * right. exists a. auto.
+      + intros [H|(a & [<-|Ha] & H)]; auto.
+        * destruct H as [->|H]; auto.
+        * right. exists a. auto.
+  Qed.
+
+  Lemma gdeps_rec_spec : forall f i m, hb f i -> mem i -> good m -> dclosed m ->
+    exists m', gdeps f true i m = Ok m' /\ good m' /\ dclosed m' /\
+      forall x, mem x -> (has m' x <-> has m x \/ greach i x).
+  Proof.
+    induction f as [|f IH]; intros i m Hb Hi Hg Hd; [destruct Hb|]. simpl in *.
+    destruct (gloop_rec_spec (gdeps f true) (ch i)) with (m := m) as (m' & E & Hg' & Hd' & Hm'); auto.
+    - intros j Hj. eapply ch_mem; eauto.
+    - intros j m0 Hj Hg0 Hd0. apply IH; auto. eapply ch_mem; eauto.
+    - exists m'. split; auto. split; auto. split; auto. intros x Hx. rewrite (Hm' x Hx).
+      split; intros [H|H]; auto; right.
+      + destruct H as (j & Hj & [->|H]); [apply gr_step; exact Hj|].
+        eapply greach_trans; [apply gr_step; exact Hj | exact H].
+      + apply greach_first in H. exact H.
+  Qed.
+
+  Theorem gdeps_spec_rec n i :
+    (forall i, ~ greach i i) -> (forall a b, In b (ch a) -> a < n) -> mem i ->
+    exists m', gdeps (S n) true i [] = Ok m' /\ forall x, In x (map snd m') <-> greach i x.
+  Proof.
+    intros Hac Hlt Hi.
+    destruct (gdeps_rec_spec (S n) i [] (hb_of_acyclic n Hac Hlt i) Hi good_nil dclosed_nil)
+      as (m' & E & Hg' & _ & Hm').
+    exists m'. split; auto. intros x. rewrite (vals_has m' x Hg'). split.
+    - intros H. pose proof (has_mem m' x Hg' H) as Hx. apply (Hm' x Hx) in H.
+      destruct H as [H|H]; [discriminate | exact H].
+    - intros H. apply Hm'; [eapply greach_mem; eauto | right; exact H].
+  Qed.
+
+  Theorem gdeps_spec_direct f i : mem i ->
+    exists m', gdeps (S f) false i [] = Ok m' /\ forall x, In x (map snd m') <-> In x (ch i).
+  Proof.
+    intros Hi. simpl.
+    destruct (gloop_direct_spec (gdeps f true) (ch i)) with (m := @nil (name * nat)) as (m' & E & Hg' & Hm').
+    - intros j Hj. eapply ch_mem; eauto.
+    - apply good_nil.
+    - exists m'. split; auto. intros x. rewrite (vals_has m' x Hg'). split.
+      + intros H. pose proof (has_mem m' x Hg' H) as Hx. apply (Hm' x Hx) in H.
+        destruct H as [H|H]; [discriminate | exact H].
+      + intros H. apply Hm'; [eapply ch_mem; eauto | right; exact H].
+  Qed.
+End GenericDeps.
+(* --- the model's traversals are instances of the generic one --- *)
+
+Lemma gloop_ext nm rec rec' b l : (forall j m, rec j m = rec' j m) ->
+  forall m, gloop nm rec b l m = gloop nm rec' b l m.
+Proof.
+  intros H. induction l as [|j tl IH]; intros m; simpl; auto.
+  rewrite H. destruct (b && not_mapped m (nm j) j); simpl.
+  - destruct (rec' j m); simpl; auto.
+  - apply IH.
+Qed.
+
+Lemma deps_loop_gloop L rec b refs : forall m,
+  deps_loop L rec b refs m = gloop (cname L) rec b (ctargets refs) m.
+Proof.
+  induction refs as [|t tl IH]; intros m; simpl; auto.
+  destruct t; simpl; auto.
+  destruct (b && not_mapped m (cname L c) c); simpl.
+  - destruct (rec c m); simpl; auto.
+  - apply IH.
+Qed.
+
+Definition cchildren (L : lib) (i : nat) : list nat := ctargets (c_refs (cell_at L i)).
+Definition rchildren (L : lib) (r : nat) : list nat := r_deps (raw_at L r).
+
+Lemma cell_deps_gdeps L : forall f b i m,
+  cell_deps f L b i m = gdeps (cname L) (cchildren L) f b i m.
+Proof.
+  induction f as [|f IH]; intros b i m; simpl; auto.
+  rewrite deps_loop_gloop. apply gloop_ext. intros j m0. apply IH.
+Qed.
+
+Lemma rdeps_loop_gloop L rec b deps : forall m,
+  rdeps_loop L rec b deps m = gloop (rname L) rec b deps m.
+Proof.
+  induction deps as [|d tl IH]; intros m; simpl; auto.
+  destruct (b && not_mapped m (rname L d) d); simpl.
+  - destruct (rec d m); simpl; auto.
+  - apply IH.
+Qed.
+
+Lemma raw_deps_gdeps L : forall f b r m,
+  raw_deps f L b r m = gdeps (rname L) (rchildren L) f b r m.
+Proof.
+  induction f as [|f IH]; intros b r m; simpl; auto.
+  rewrite rdeps_loop_gloop. apply gloop_ext. intros j m0. apply IH.
+Qed.
+
+Lemma greach_creach L i j : greach (cchildren L) i j <-> creach L i j.
+Proof.
+  split; intros H; induction H.
+  - apply cr_step. apply cedge_ctargets. exact H.
+  - eapply cr_snoc; eauto. apply cedge_ctargets. exact H0.
+  - apply gr_step. apply cedge_ctargets. exact H.
+  - eapply gr_snoc; eauto. apply cedge_ctargets in H0. exact H0.
+Qed.
+
+(* raw cell i transitively depends on raw cell j *)
+Definition rreach (L : lib) : nat -> nat -> Prop := greach (rchildren L).
+
+Lemma rreach_lt L i j : ids_ok L -> rreach L i j -> j < i.
+Proof.
+  intros (_ & _ & _ & H4) H. induction H as [i j H|i j k H IH Hjk].
+  - apply (H4 i j H).
+  - specialize (H4 j k Hjk). lia.
+Qed.
+
+Lemma rchildren_valid L a b : In b (rchildren L a) -> a < length (l_raws L).
+Proof.
+  unfold rchildren, raw_at. intros H. destruct (Nat.lt_ge_cases a (length (l_raws L))); auto.
+  rewrite nth_overflow in H by assumption. destruct H.
+Qed.
+
+(* get_dependencies(false) returns the directly referenced cells, get_dependencies(true) their
+   transitive closure; the recursion never exceeds the fuel `number of cells + 1` *)
+Theorem dependencies_spec_lemma L i : WF L -> closed L -> In i (l_carr L) ->
+  (exists l, get_dependencies L false i = Ok l /\
+             forall j, In j l <-> In (ToCell j) (c_refs (cell_at L i))) /\
+  (exists l, get_dependencies L true i = Ok l /\ forall j, In j l <-> creach L i j).
+Proof.
+  intros (Hids & (Hn1 & Hn2 & Hn3) & Ha) (Hcl1 & Hcl2) Hi.
+  set (mem := fun i => In i (l_carr L)).
+  assert (Hinj : forall a b, mem a -> mem b -> cname L a = cname L b -> a = b).
+  { intros a b Ha' Hb E. apply (NoDup_map_inj (cname L) (l_carr L) a b Hn1 Ha' Hb E). }
+  assert (Hch : forall a b, mem a -> In b (cchildren L a) -> mem b).
+  { intros a b Ha' Hb. unfold cchildren in Hb. apply In_ctargets in Hb. apply (Hcl1 a _ Ha' Hb). }
+  unfold get_dependencies, cfuel. rewrite !cell_deps_gdeps. split.
+  - destruct (gdeps_spec_direct (cname L) (cchildren L) mem Hinj Hch (length (l_cells L)) i Hi) as (m' & E & Hm').
+    rewrite E. simpl. eexists. split; [reflexivity|]. intros j. unfold map_values.
+    rewrite sort_nat_In, Hm'. unfold cchildren. apply In_ctargets.
+  - destruct (gdeps_spec_rec (cname L) (cchildren L) mem Hinj Hch (length (l_cells L)) i) as (m' & E & Hm'); auto.
+    + intros x H. apply (Ha x). apply greach_creach. exact H.
+    + intros a b H. unfold cchildren in H. apply In_ctargets in H. apply (cedge_valid L a b H).
+    + rewrite E. simpl. eexists. split; [reflexivity|]. intros j. unfold map_values.
+      rewrite sort_nat_In, Hm'. apply greach_creach.
+Qed.
+
+(* the same for RawCell::get_dependencies *)
+Theorem raw_dependencies_spec_lemma L r : WF L -> closed L -> In r (l_rarr L) ->
+  (exists l, raw_get_dependencies L false r = Ok l /\
+             forall d, In d l <-> In d (r_deps (raw_at L r))) /\
+  (exists l, raw_get_dependencies L true r = Ok l /\ forall d, In d l <-> rreach L r d).
+Proof.
+  intros (Hids & (Hn1 & Hn2 & Hn3) & Ha) (Hcl1 & Hcl2) Hr.
+  set (mem := fun r => In r (l_rarr L)).
+  assert (Hinj : forall a b, mem a -> mem b -> rname L a = rname L b -> a = b).
+  { intros a b Ha' Hb E. apply (NoDup_map_inj (rname L) (l_rarr L) a b Hn2 Ha' Hb E). }
+  assert (Hch : forall a b, mem a -> In b (rchildren L a) -> mem b).
+  { intros a b Ha' Hb. apply (Hcl2 a b Ha' Hb). }
+  unfold raw_get_dependencies, rfuel. rewrite !raw_deps_gdeps. split.
+  - destruct (gdeps_spec_direct (rname L) (rchildren L) mem Hinj Hch (length (l_raws L)) r Hr) as (m' & E & Hm').
+    rewrite E. simpl. eexists. split; [reflexivity|]. intros j. unfold map_values.
+    rewrite sort_nat_In, Hm'. reflexivity.
+  - destruct (gdeps_spec_rec (rname L) (rchildren L) mem Hinj Hch (length (l_raws L)) r) as (m' & E & Hm'); auto.
+    + intros x H. apply (rreach_lt L x x Hids) in H. lia.
+    + apply rchildren_valid.
+    + rewrite E. simpl. eexists. split; [reflexivity|]. intros j. unfold map_values.
+      rewrite sort_nat_In, Hm'. reflexivity.
+Qed.
+
+(* Cell::get_raw_dependencies(false): the raw cells directly referenced *)
+Lemma crdeps_loop_direct L rf rec refs : forall m,
+  crdeps_loop L rf rec false refs m = gloop (rname L) rec false (rtargets refs) m.
+Proof. induction refs as [|t tl IH]; intros m; simpl; auto. destruct t; simpl; auto. Qed.
+
+Theorem raw_dependencies_of_cell_direct_lemma L i : WF L -> closed L -> In i (l_carr L) ->
+  exists l, get_raw_dependencies L false i = Ok l /\
+            forall r, In r l <-> In (ToRaw r) (c_refs (cell_at L i)).
+Proof.
+  intros (Hids & (Hn1 & Hn2 & Hn3) & Ha) (Hcl1 & Hcl2) Hi.
+  set (mem := fun r => In r (l_rarr L)).
+  assert (Hinj : forall a b, mem a -> mem b -> rname L a = rname L b -> a = b).
+  { intros a b Ha' Hb E. apply (NoDup_map_inj (rname L) (l_rarr L) a b Hn2 Ha' Hb E). }
+  unfold get_raw_dependencies, cfuel. simpl. rewrite crdeps_loop_direct.
+  destruct (gloop_direct_spec (rname L) mem Hinj (cell_raw_deps (length (l_cells L)) (rfuel L) L true)
+              (rtargets (c_refs (cell_at L i)))) with (m := @nil (name * nat)) as (m' & E & Hg' & Hm').
+  - intros r Hr0. apply In_rtargets in Hr0. apply (Hcl1 i _ Hi Hr0).
+  - apply good_nil.
+  - rewrite E. simpl. eexists. split; [reflexivity|]. intros r. unfold map_values.
+    rewrite sort_nat_In, (vals_has (rname L) mem m' r Hg'). rewrite <- In_rtargets. split.
+    + intros H. pose proof (has_mem (rname L) mem m' r Hg' H) as Hx. apply (Hm' r Hx) in H.
+      destruct H as [H|H]; [discriminate | exact H].
+    + intros H. apply Hm'; [|right; exact H]. apply In_rtargets in H. apply (Hcl1 i _ Hi H).
+Qed.
+(* ========================================================================================== *)
+(* 14. Histories from the empty library; satisfiability of the hypotheses; refuted clauses      *)
+
+Theorem history_lemma ops :
+  ops_ok_closed empty_lib ops -> WF (run ops empty_lib) /\ closed (run ops empty_lib).
+Proof. intros H. apply run_WF_closed_lemma; auto using WF_empty, closed_empty. Qed.
+
+Theorem history_WF_lemma ops : ops_ok empty_lib ops -> WF (run ops empty_lib).
+Proof. intros H. apply run_WF_lemma; auto using WF_empty. Qed.
+
+Lemma run_app ops1 ops2 L : run (ops1 ++ ops2) L = run ops2 (run ops1 L).
+Proof. unfold run. apply fold_left_app. Qed.
+
+Lemma ops_ok_app ops1 : forall L ops2,
+  ops_ok L (ops1 ++ ops2) <-> ops_ok L ops1 /\ ops_ok (run ops1 L) ops2.
+Proof.
+  induction ops1 as [|o tl IH]; intros L ops2; simpl; [tauto|]. rewrite IH. tauto.
+Qed.
+
+Arguments mkCell _%N _ _ _.
+Arguments mkRaw _%N _.
+Arguments ByName _%N.
+
+Ltac small :=
+  cbv -[Nat.lt Nat.le]; repeat (match goal with
+    | |- _ /\ _ => split
+    | |- True => exact I
+    | |- Forall _ _ => constructor
+    | |- forall _, _ => intro
+    | |- ~ _ => intro
+    | H : _ \/ _ |- _ => destruct H
+    | H : _ /\ _ |- _ => destruct H
+    | H : False |- _ => destruct H
+    | H : Some _ = Some _ |- _ => inversion H; clear H
+    | H : exists _, _ |- _ => destruct H
+    end; subst; try discriminate; try lia; try congruence);
+  try solve [intuition (auto; try lia; try congruence)].
+
+(* a library with a shared sub-cell, a by-name reference to a present and to an absent cell, and
+   raw cells: cells 0 "1", 1 "2" -> {0, raw 1}, 2 "3" -> {0, 1, name 1, name 9}; raws 0 "7", 1 "8" -> {0} *)
+Definition sample_ops : list op :=
+  [OpNewRaw (mkRaw 7 []); OpAddRaw 0; OpNewRaw (mkRaw 8 [0]); OpAddRaw 1;
+   OpNewCell (mkCell 1 [] [(1,0)%N] []); OpAddCell 0;
+   OpNewCell (mkCell 2 [ToCell 0; ToRaw 1] [(2,0)%N] [(1,1)%N]); OpAddCell 1;
+   OpNewCell (mkCell 3 [ToCell 0; ToCell 1; ByName 1; ByName 9] [] []); OpAddCell 2].
+Definition sample : lib := run sample_ops empty_lib.
+
+Example sample_ok : ops_ok_closed empty_lib sample_ops.
+Proof. small. Qed.
+
+Example sample_WF : WF sample /\ closed sample.
+Proof. apply history_lemma. exact sample_ok. Qed.
+
+(* the hypotheses of the main lemmas are satisfiable: a rename and a replacement on `sample` *)
+Example sample_rename_ok :
+  In 0 (l_carr sample) /\ others_differ sample 0 5%N /\ no_raw_named sample 5%N.
+Proof. small. Qed.
+
+Example sample_replace_ok :
+  let L := step sample (OpCopyCell 1 (Some 6%N)) in
+  op_pre L (OpReplaceCC 1 3) /\ op_pre_closed L (OpReplaceCC 1 3).
+Proof.
+  cbv zeta. split.
+  - unfold op_pre. split; [small|]. split; [small|]. split; [small|]. split; [right; small|].
+    intros m Hm Hh Hr.
+    assert (m = 3 \/ m = 0) as Hcases.
+    { destruct Hr as [E|Hr]; [left; congruence|]. right.
+      apply creach_first in Hr. destruct Hr as (j & Hj & Hjm).
+      assert (j = 0) by (revert Hj; unfold cedge; small). subst j.
+      destruct Hjm as [E|Hjm]; [congruence|].
+      apply creach_first in Hjm. destruct Hjm as (k & Hk & _). revert Hk. unfold cedge. small. }
+    destruct Hh as (t & Ht & Hmt). destruct Hcases; subst m; revert Ht Hmt; small.
+  - small.
+Qed.
+
+(* ---------------------------------------------------------------------------------------- *)
+(* Clauses of the property that the faithful model falsifies; each witness is an operation
+   sequence from the empty library                                                           *)
+
+(* (R1) a cell that is referenced by name only is reported as top level: top_level (and
+   get_dependencies) ignore ReferenceType::Name references *)
+Example top_level_byname_refuted :
+  let ops := [OpNewCell (mkCell 1 [] [] []); OpAddCell 0;
+              OpNewCell (mkCell 2 [ByName 1] [] []); OpAddCell 1] in
+  let L := run ops empty_lib in
+  ops_ok_closed empty_lib ops /\
+  In 1 (l_carr L) /\ In (ByName 1) (c_refs (cell_at L 1)) /\ resolve L (ByName 1) = Some (OCell 0) /\
+  top_level L = ([0; 1], []).
+Proof. cbv zeta. split; [small|]. vm_compute. auto. Qed.
+
+(* (R2) top_level keys its dependency maps by NAME.  After removing a referenced cell (the
+   pointer to it stays in the referencing cell) and giving its name to another member, that
+   member is reported as top level although a member points to it.  Every operation meets
+   `op_pre`, so WF holds all along; what is lost is `closed`. *)
+Example top_level_after_remove_refuted :
+  let setup := [OpNewCell (mkCell 1 [] [] []); OpAddCell 0; OpNewCell (mkCell 2 [] [] []); OpAddCell 1;
+                OpNewCell (mkCell 5 [ToCell 1] [] []); OpAddCell 2;
+                OpNewCell (mkCell 6 [ToCell 0] [] []); OpAddCell 3] in
+  let ops := [OpRemoveCell 0; OpRenamePtr 1 1%N] in
+  let L0 := run setup empty_lib in
+  let L := run ops L0 in
+  ops_ok_closed empty_lib setup /\ ops_ok L0 ops /\ WF L /\
+  In 2 (l_carr L) /\ In (ToCell 1) (c_refs (cell_at L 2)) /\ In 1 (fst (top_level L)).
+Proof.
+  cbv zeta. split; [small|]. split; [small|]. split.
+  - rewrite <- run_app. apply history_WF_lemma. small.
+  - vm_compute. auto.
+Qed.
+
+(* (R3) replace_cell (cell by cell) matches RawCell references by NAME: a reference to a raw cell
+   that merely has the old cell's name (and is not in the library) is redirected too *)
+Example replace_name_match_refuted :
+  let setup := [OpNewRaw (mkRaw 1 []); OpNewCell (mkCell 1 [] [] []); OpAddCell 0;
+                OpNewCell (mkCell 2 [ToRaw 0] [] []); OpAddCell 1; OpCopyCell 0 None] in
+  let L := run setup empty_lib in
+  let L' := step L (OpReplaceCC 0 2) in
+  ops_ok empty_lib setup /\ op_pre L (OpReplaceCC 0 2) /\
+  c_refs (cell_at L 1) = [ToRaw 0] /\ resolve L (ToRaw 0) = Some (ORaw 0) /\
+  c_refs (cell_at L' 1) = [ToCell 2].
+Proof.
+  cbv zeta. split; [small|]. split; [|vm_compute; auto].
+  unfold op_pre. split; [small|]. split; [small|]. split; [small|]. split; [left; reflexivity|].
+  intros m Hm Hh [E|Hr].
+  - subst m. destruct Hh as (t & Ht & _). revert Ht. small.
+  - apply creach_first in Hr. destruct Hr as (j & Hj & _). revert Hj. unfold cedge. small.
+Qed.
+
+(* (R4) the dependency arrays of raw cells are never updated: after replacing a raw cell, a
+   member raw cell still depends on the removed one *)
+Example replace_raw_deps_refuted :
+  let setup := [OpNewRaw (mkRaw 7 []); OpAddRaw 0; OpNewRaw (mkRaw 8 [0]); OpAddRaw 1;
+                OpNewRaw (mkRaw 9 [])] in
+  let L := run setup empty_lib in
+  let L' := step L (OpReplaceRR 0 2) in
+  ops_ok_closed empty_lib setup /\ op_pre L (OpReplaceRR 0 2) /\
+  In 1 (l_rarr L') /\ In 0 (r_deps (raw_at L' 1)) /\ ~ In 0 (l_rarr L') /\ ~ closed L'.
+Proof.
+  cbv zeta. split; [small|]. split; [unfold op_pre; split; [small|]; split; [small|]; split; [small|]; right; small|].
+  split; [small|]. split; [small|]. split; [small|].
+  intros [_ H]. specialize (H 1 0). revert H. small.
+Qed.
+
+(* (R5) a replacement that references the cell it replaces becomes self-referential; the
+   recursive queries then never return (the C++ exhausts the stack) *)
+Example replace_self_cycle_refuted :
+  let setup := [OpNewCell (mkCell 1 [] [] []); OpAddCell 0; OpNewCell (mkCell 2 [ToCell 0] [] [])] in
+  let L := run setup empty_lib in
+  let L' := step L (OpReplaceCC 0 1) in
+  ops_ok_closed empty_lib setup /\
+  c_refs (cell_at L' 1) = [ToCell 1] /\ ~ acyclic L' /\ get_dependencies L' true 1 = Crash.
+Proof.
+  cbv zeta. split; [small|]. split; [reflexivity|]. split; [|reflexivity].
+  intros H. apply (H 1). apply cr_step. unfold cedge. vm_compute. auto.
+Qed.
+
+(* (R6) Library::copy_from(deep): Reference::copy_from copies the target pointer, so every
+   reference of the copy designates a cell of the ORIGINAL library; in the copy nothing points to
+   a member, every cell is top level, and dependencies are the originals *)
+Example copy_deep_refuted :
+  let setup := [OpNewCell (mkCell 1 [] [] []); OpAddCell 0; OpNewCell (mkCell 2 [ToCell 0] [] []); OpAddCell 1] in
+  let L := run setup empty_lib in
+  let L' := step L (OpCopyLib true) in
+  ops_ok_closed empty_lib setup /\ WF L' /\
+  l_carr L' = [2; 3] /\ c_refs (cell_at L' 3) = [ToCell 0] /\ ~ closed L' /\
+  top_level L' = ([2; 3], []) /\ get_dependencies L' false 3 = Ok [0].
+Proof.
+  cbv zeta. split; [small|]. split.
+  - apply step_WF_lemma; [|exact I]. apply history_WF_lemma. small.
+  - split; [reflexivity|]. split; [reflexivity|]. split; [|vm_compute; auto].
+    intros [H _]. specialize (H 3 (ToCell 0)). revert H. small.
+Qed.
+(* ========================================================================================== *)
+(* 15. Cell::get_raw_dependencies(true): raw cells referenced by the cell or by any cell it
+   reaches, and everything those raw cells depend on                                            *)
+
+(* one step of the traversal: optional recursive call on j, then result.set(j->name, j) *)
+Lemma gstep_spec (nm : nat -> name) (ch : nat -> list nat) (mem : nat -> Prop)
+    (rec : nat -> dmap -> outcome dmap) (j : nat) (m : dmap) :
+  (forall a b, mem a -> mem b -> nm a = nm b -> a = b) ->
+  (forall a b, mem a -> In b (ch a) -> mem b) ->
+  mem j -> good nm mem m -> dclosed nm ch m ->
+  (exists m', rec j m = Ok m' /\ good nm mem m' /\ dclosed nm ch m' /\
+     forall x, mem x -> (has nm m' x <-> has nm m x \/ greach ch j x)) ->
+  exists m1, (if true && not_mapped m (nm j) j then rec j m else Ok m) = Ok m1 /\
+    good nm mem (mset (nm j) j m1) /\ dclosed nm ch (mset (nm j) j m1) /\
+    forall x, mem x -> (has nm (mset (nm j) j m1) x <-> has nm m x \/ x = j \/ greach ch j x).
+Proof.
+  intros Hinj Hch Hj Hg Hd Hrec. simpl andb.
+  assert (exists m1, (if not_mapped m (nm j) j then rec j m else Ok m) = Ok m1 /\ good nm mem m1 /\ dclosed nm ch m1 /\
+            (forall x, mem x -> (has nm m1 x <-> has nm m x \/ greach ch j x)) /\
+            (forall w, greach ch j w -> has nm m1 w)) as (m1 & E1 & Hg1 & Hd1 & Hm1 & Hdesc).
+  { destruct (not_mapped m (nm j) j) eqn:Enm.
+    - destruct Hrec as (m1 & E & Hg1 & Hd1 & Hm1).
+      exists m1. split; auto. split; auto. split; auto. split; auto.
+      intros w Hw. apply Hm1; [eapply greach_mem; eauto | right; exact Hw].
+    - assert (has nm m j) as Hhj.
+      { unfold has. unfold not_mapped in Enm. destruct (mget (nm j) m) as [v|]; [|discriminate].
+        apply negb_false_iff in Enm. apply Nat.eqb_eq in Enm. subst. reflexivity. }
+      exists m. split; auto. split; auto. split; auto. split.
+      + intros x Hx. split; auto. intros [H|H]; auto. apply (Hd j x Hhj H).
+      + intros w Hw. apply (Hd j w Hhj Hw). }
+  exists m1. split; auto.
+  assert (Hg2 : good nm mem (mset (nm j) j m1)) by (apply good_mset; auto).
+  split; auto. split.
+  - intros v w Hv Hvw. pose proof (has_mem nm mem _ v Hg2 Hv) as Hmv.
+    pose proof (greach_mem ch mem Hch v w Hmv Hvw) as Hmw.
+    apply (has_mset nm mem Hinj m1 j w Hmw Hj). right.
+    apply (has_mset nm mem Hinj m1 j v Hmv Hj) in Hv. destruct Hv as [->|Hv].
+    + apply Hdesc. exact Hvw.
+    + apply (Hd1 v w Hv Hvw).
+  - intros x Hx. rewrite (has_mset nm mem Hinj m1 j x Hx Hj), (Hm1 x Hx). tauto.
+Qed.
+
+(* raw cell x is needed by cell i *)
+Definition raw_needed (L : lib) (i x : nat) : Prop :=
+  exists c r0, creach_refl L i c /\ In (ToRaw r0) (c_refs (cell_at L c)) /\ (x = r0 \/ rreach L r0 x).
+
+Lemma raw_needed_unfold L i x :
+  raw_needed L i x <->
+  (exists r0, In (ToRaw r0) (c_refs (cell_at L i)) /\ (x = r0 \/ rreach L r0 x)) \/
+  (exists j, In (ToCell j) (c_refs (cell_at L i)) /\ raw_needed L j x).
+Proof.
+  split.
+  - intros (c & r0 & [<-|Hr] & Hin & Hx).
+    + left. exists r0. auto.
+    + right. apply creach_first in Hr. destruct Hr as (j & Hj & Hjc). exists j. split; [exact Hj|].
+      exists c, r0. auto.
+  - intros [(r0 & Hin & Hx)|(j & Hj & c & r0 & Hjc & Hin & Hx)].
+    + exists i, r0. split; [left; reflexivity|]. auto.
+    + exists c, r0. split; auto. eapply creach_refl_trans; [right; apply cr_step; exact Hj | exact Hjc].
+Qed.
+
+Section CellRawDeps.
+  Variable L : lib.
+  Hypothesis HWF : WF L.
+  Hypothesis Hcl : closed L.
+
+  Let memr := fun r => In r (l_rarr L).
+  Let G := good (rname L) memr.
+  Let D := dclosed (rname L) (rchildren L).
+  Let H := has (rname L).
+
+  Lemma rinj : forall a b, memr a -> memr b -> rname L a = rname L b -> a = b.
+  Proof.
+    destruct HWF as (_ & (_ & Hn2 & _) & _). intros a b Ha Hb E.
+    apply (NoDup_map_inj (rname L) (l_rarr L) a b Hn2 Ha Hb E).
+  Qed.
+
+  Lemma rch : forall a b, memr a -> In b (rchildren L a) -> memr b.
+  Proof. destruct Hcl as [_ Hcl2]. intros a b Ha Hb. apply (Hcl2 a b Ha Hb). Qed.
+
+  Lemma rawrec_contract r m : memr r -> G m -> D m ->
+    exists m', raw_deps (rfuel L) L true r m = Ok m' /\ G m' /\ D m' /\
+      forall x, memr x -> (H m' x <-> H m x \/ rreach L r x).
+  Proof.
+    intros Hr Hg Hd. rewrite raw_deps_gdeps. unfold rfuel.
+    apply (gdeps_rec_spec (rname L) (rchildren L) memr rinj rch); auto.
+    apply hb_of_acyclic.
+    - intros x Hx. destruct HWF as (Hids & _). apply (rreach_lt L x x Hids) in Hx. lia.
+    - apply rchildren_valid.
+  Qed.
+
+  Definition cell_contract (rec : nat -> dmap -> outcome dmap) (j : nat) : Prop :=
+    forall m, G m -> D m ->
+      exists m', rec j m = Ok m' /\ G m' /\ D m' /\
+        forall x, memr x -> (H m' x <-> H m x \/ raw_needed L j x).
+
+  Lemma crdeps_loop_spec rec refs :
+    (forall r, In (ToRaw r) refs -> memr r) ->
+    (forall j, In (ToCell j) refs -> cell_contract rec j) ->
+    forall m, G m -> D m ->
+    exists m', crdeps_loop L (rfuel L) rec true refs m = Ok m' /\ G m' /\ D m' /\
+      forall x, memr x ->
+        (H m' x <-> H m x \/
+           (exists r0, In (ToRaw r0) refs /\ (x = r0 \/ rreach L r0 x)) \/
+           (exists j, In (ToCell j) refs /\ raw_needed L j x)).
+  Proof.
+    induction refs as [|t tl IH]; intros Hraw Hcell m Hg Hd.
+    - simpl. exists m. split; auto. split; auto. split; auto. intros x _. split; auto.
+      intros [Hx|[(r0 & [] & _)|(j & [] & _)]]. exact Hx.
+    - assert (Hraw' : forall r, In (ToRaw r) tl -> memr r) by (intros r Hr; apply Hraw; right; exact Hr).
+      assert (Hcell' : forall j, In (ToCell j) tl -> cell_contract rec j) by (intros j Hj; apply Hcell; right; exact Hj).
+      destruct t as [j|r|s]; cbn [crdeps_loop andb].
+      + (* Cell reference: recurse, unconditionally *)
+        destruct (Hcell j (or_introl eq_refl) m Hg Hd) as (m1 & E1 & Hg1 & Hd1 & Hm1).
+        rewrite E1. cbn [obind].
+        destruct (IH Hraw' Hcell' m1 Hg1 Hd1) as (m' & E & Hg' & Hd' & Hm').
+        exists m'. split; auto. split; auto. split; auto. intros x Hx.
+        rewrite (Hm' x Hx), (Hm1 x Hx). split.
+        * intros [[Hx0|Hx0]|[(r0 & Hr0 & Hx0)|(j0 & Hj0 & Hx0)]]; auto.
+          -- right. right. exists j. simpl. auto.
+          -- right. left. exists r0. simpl. auto.
+          -- right. right. exists j0. simpl. auto.
+        * intros [Hx0|[(r0 & [Hr0|Hr0] & Hx0)|(j0 & [Hj0|Hj0] & Hx0)]]; auto; try discriminate.
+          -- right. left. exists r0. simpl. auto.
+          -- inversion Hj0; subst. auto.
+          -- right. right. exists j0. simpl. auto.
+      + (* RawCell reference: the generic step *)
+        assert (memr r) as Hr by (apply Hraw; left; reflexivity).
+        destruct (gstep_spec (rname L) (rchildren L) memr (raw_deps (rfuel L) L true) r m rinj rch Hr Hg Hd
+                    (rawrec_contract r m Hr Hg Hd)) as (m1 & E1 & Hg2 & Hd2 & Hm2).
+        cbn [andb] in E1. rewrite E1. cbn [obind].
+        destruct (IH Hraw' Hcell' _ Hg2 Hd2) as (m' & E & Hg' & Hd' & Hm').
+        exists m'. split; auto. split; auto. split; auto. intros x Hx.
+        unfold H in *. rewrite (Hm' x Hx), (Hm2 x Hx). split.
+        * intros [[Hx0|Hx0]|[(r0 & Hr0 & Hx0)|(j0 & Hj0 & Hx0)]]; auto.
+          -- right. left. exists r. simpl. auto.
+          -- right. left. exists r0. simpl. auto.
+          -- right. right. exists j0. simpl. auto.
+        * intros [Hx0|[(r0 & [Hr0|Hr0] & Hx0)|(j0 & [Hj0|Hj0] & Hx0)]]; auto; try discriminate.
+          -- inversion Hr0; subst. auto.
+          -- right. left. exists r0. simpl. auto.
+          -- right. right. exists j0. simpl. auto.
+      + (* Name reference: skipped *)
+        destruct (IH Hraw' Hcell' m Hg Hd) as (m' & E & Hg' & Hd' & Hm').
+        exists m'. split; auto. split; auto. split; auto. intros x Hx. rewrite (Hm' x Hx). split.
+        * intros [Hx0|[(r0 & Hr0 & Hx0)|(j0 & Hj0 & Hx0)]]; auto.
+          -- right. left. exists r0. simpl. auto.
+          -- right. right. exists j0. simpl. auto.
+        * intros [Hx0|[(r0 & [Hr0|Hr0] & Hx0)|(j0 & [Hj0|Hj0] & Hx0)]]; auto; try discriminate.
+          -- right. left. exists r0. simpl. auto.
+          -- right. right. exists j0. simpl. auto.
+  Qed.
+
+  Lemma cell_raw_deps_spec : forall f i, hb (cchildren L) f i -> In i (l_carr L) ->
+    cell_contract (cell_raw_deps f (rfuel L) L true) i.
+  Proof.
+    induction f as [|f IH]; intros i Hb Hi; [destruct Hb|]. intros m Hg Hd. simpl in *.
+    destruct Hcl as [Hcl1 _].
+    destruct (crdeps_loop_spec (cell_raw_deps f (rfuel L) L true) (c_refs (cell_at L i))) with (m := m)
+      as (m' & E & Hg' & Hd' & Hm'); auto.
+    - intros r Hr. apply (Hcl1 i _ Hi Hr).
+    - intros j Hj. apply IH.
+      + apply Hb. unfold cchildren. apply In_ctargets. exact Hj.
+      + apply (Hcl1 i _ Hi Hj).
+    - exists m'. split; auto. split; auto. split; auto. intros x Hx. rewrite (Hm' x Hx).
+      rewrite (raw_needed_unfold L i x). tauto.
+  Qed.
+End CellRawDeps.
+
+Lemma creach_member L i c : closed L -> In i (l_carr L) -> creach L i c -> In c (l_carr L).
+Proof.
+  intros [Hcl1 _] Hi H. induction H as [i j H|i j k H IH Hjk];
+    [apply (Hcl1 i _ Hi H) | apply (Hcl1 j _ (IH Hi) Hjk)].
+Qed.
+
+Theorem raw_dependencies_of_cell_spec_lemma L i : WF L -> closed L -> In i (l_carr L) ->
+  exists l, get_raw_dependencies L true i = Ok l /\ forall r, In r l <-> raw_needed L i r.
+Proof.
+  intros HWF Hcl Hi. pose proof HWF as (Hids & Hn & Ha). pose proof Hcl as [Hcl1 Hcl2].
+  assert (Hb : hb (cchildren L) (cfuel L) i).
+  { unfold cfuel. apply hb_of_acyclic.
+    - intros x Hx. apply (Ha x). apply greach_creach. exact Hx.
+    - intros a b Hab. unfold cchildren in Hab. apply In_ctargets in Hab. apply (cedge_valid L a b Hab). }
+  destruct (cell_raw_deps_spec L HWF Hcl (cfuel L) i Hb Hi [] (good_nil _ _) (dclosed_nil _ _))
+    as (m' & E & Hg' & _ & Hm').
+  unfold get_raw_dependencies. rewrite E. simpl. eexists. split; [reflexivity|].
+  intros r. unfold map_values. rewrite sort_nat_In, (vals_has _ _ m' r Hg'). split.
+  - intros Hr. pose proof (has_mem _ _ m' r Hg' Hr) as Hx. apply (Hm' r Hx) in Hr.
+    destruct Hr as [Hr|Hr]; [discriminate | exact Hr].
+  - intros Hr. apply Hm'; [|right; exact Hr].
+    destruct Hr as (c & r0 & Hic & Hin & Hx).
+    assert (In c (l_carr L)) as Hc.
+    { destruct Hic as [<-|Hic]; auto. apply (creach_member L i c Hcl Hi Hic). }
+    pose proof (Hcl1 c _ Hc Hin) as Hr0. simpl in Hr0.
+    destruct Hx as [->|Hx]; auto.
+    apply (greach_mem (rchildren L) (fun r => In r (l_rarr L)) (fun a b Ha Hb => Hcl2 a b Ha Hb) r0 r Hr0 Hx).
+Qed.
+
+(* ========================================================================================== *)
+Print Assumptions step_WF_lemma.
+Print Assumptions run_WF_lemma.
+Print Assumptions step_closed_lemma.
+Print Assumptions run_WF_closed_lemma.
+Print Assumptions history_lemma.
+Print Assumptions rename_preserves_targets_lemma.
+Print Assumptions replace_retargets_lemma.
+Print Assumptions top_level_spec_lemma.
+Print Assumptions dependencies_spec_lemma.
+Print Assumptions raw_dependencies_spec_lemma.
+Print Assumptions raw_dependencies_of_cell_direct_lemma.
+Print Assumptions raw_dependencies_of_cell_spec_lemma.
+Print Assumptions tags_spec_lemma.
+Print Assumptions remap_spec_lemma.
+Print Assumptions rename_nonmember_refuted.
+Print Assumptions rename_collision_refuted.
+Print Assumptions top_level_byname_refuted.
+Print Assumptions top_level_after_remove_refuted.
+Print Assumptions replace_name_match_refuted.
+Print Assumptions replace_raw_deps_refuted.
+Print Assumptions replace_self_cycle_refuted.
+Print Assumptions copy_deep_refuted.
